@@ -376,3 +376,93 @@ package ast
 //@   props C10
 //@   nilrecv
 //@   pure
+
+// ---------------------------------------------------------------------------
+// Listener callbacks (C10). What is on the parse stack when a callback runs follows from the grammar
+// and from the order in which ANTLR's tree walker invokes the callbacks; those facts are `assume`d
+// here (they are about the generated parser, not about this code) and listed in the evidence.
+// ---------------------------------------------------------------------------
+
+//@ func (*ToBoltListener).VisitTerminal
+//@   props C10
+//@   assume node != nil
+//@   modifies *
+//@ func (*ToBoltListener).ExitStringArray
+//@   props C10
+//@   assume forall(i, 0 <= i && i < len(bl.currentStack.values) ==> istype(bl.currentStack.values[i], StringNode))
+//@   modifies *
+//@   invariant 1: bl.err == nil && bl.currentStack == old(bl.currentStack) && bl.stacks != nil && arrayNode != nil && fresh(arrayNode)
+//@   invariant 1: forall(i, 0 <= i && i < len(bl.currentStack.values) ==> istype(bl.currentStack.values[i], StringNode) && bl.currentStack.values[i] != nil && ref(bl.currentStack.values[i]) != 0)
+//@   invariant 1: forall(i, 0 <= i && i < len(arrayNode.values) ==> arrayNode.values[i] != nil)
+//@   invariant 1: forall(i, 0 <= i && i < len(bl.stacks.values) ==> istype(bl.stacks.values[i], *Stack) && bl.stacks.values[i] != nil && ref(bl.stacks.values[i]) != 0)
+//@ func (*ToBoltListener).ExitDatetimeArray
+//@   props C10
+//@   assume forall(i, 0 <= i && i < len(bl.currentStack.values) ==> istype(bl.currentStack.values[i], DatetimeNode))
+//@   modifies *
+//@   invariant 1: bl.err == nil && bl.currentStack == old(bl.currentStack) && bl.stacks != nil && arrayNode != nil && fresh(arrayNode)
+//@   invariant 1: forall(i, 0 <= i && i < len(bl.currentStack.values) ==> istype(bl.currentStack.values[i], DatetimeNode) && bl.currentStack.values[i] != nil && ref(bl.currentStack.values[i]) != 0)
+//@   invariant 1: forall(i, 0 <= i && i < len(arrayNode.values) ==> arrayNode.values[i] != nil)
+//@   invariant 1: forall(i, 0 <= i && i < len(bl.stacks.values) ==> istype(bl.stacks.values[i], *Stack) && bl.stacks.values[i] != nil && ref(bl.stacks.values[i]) != 0)
+//@ func (*ToBoltListener).ExitNumberArray
+//@   props C10
+//@   assume forall(i, 0 <= i && i < len(bl.currentStack.values) ==> istype(bl.currentStack.values[i], Int64Node) || istype(bl.currentStack.values[i], Float64Node))
+//@   modifies *
+//@   invariant 1: bl.err == nil && bl.currentStack == old(bl.currentStack) && bl.stacks != nil
+//@   invariant 1: forall(i, 0 <= i && i < len(bl.currentStack.values) ==> (istype(bl.currentStack.values[i], Int64Node) || istype(bl.currentStack.values[i], Float64Node)) && bl.currentStack.values[i] != nil && ref(bl.currentStack.values[i]) != 0)
+//@   invariant 1: forall(i, 0 <= i && i < len(nodes) ==> nodes[i] != nil && (istype(nodes[i], Int64Node) || istype(nodes[i], Float64Node)) && (allInt ==> istype(nodes[i], Int64Node)))
+//@   invariant 1: forall(i, 0 <= i && i < len(bl.stacks.values) ==> istype(bl.stacks.values[i], *Stack) && bl.stacks.values[i] != nil && ref(bl.stacks.values[i]) != 0)
+//@   invariant 2: arrayNode != nil && fresh(arrayNode) && forall(i, 0 <= i && i < len(arrayNode.values) ==> arrayNode.values[i] != nil)
+//@   invariant 3: arrayNode != nil && fresh(arrayNode) && forall(i, 0 <= i && i < len(arrayNode.values) ==> arrayNode.values[i] != nil)
+//@ func (*ToBoltListener).ExitBinaryOp
+//@   props C10
+//@   assume len(bl.currentStack.values) > 0 ==> !istype(bl.currentStack.values[len(bl.currentStack.values)-1], *SetFunctionNode)
+//@   modifies *
+//@ func (*ToBoltListener).pushSetFunction
+//@   props C10
+//@   assume len(bl.currentStack.values) > 1 && istype(bl.currentStack.values[len(bl.currentStack.values)-2], SetFunction) ==> 0 <= as(bl.currentStack.values[len(bl.currentStack.values)-2], SetFunction) && as(bl.currentStack.values[len(bl.currentStack.values)-2], SetFunction) <= 3
+//@   modifies *
+//@ func (*ToBoltListener).ExitQueryStmt
+//@   props C10
+//@   assume BoolNodeTrue != nil
+//@   modifies *
+//@ func (*ToBoltListener).getQuery
+//@   props C10
+//@   requires symbols != nil
+//@   modifies *
+//@ func Parse
+//@   props C10
+//@   requires symbolTypes != nil
+//@   assume BoolNodeTrue != nil
+//@   modifies *
+//@ func NewAndExprNode
+//@   props C10
+//@   requires left != nil && right != nil
+//@   pure
+//@   ensures result != nil
+//@ func (Query).SetPredicate
+//@   requires arg0 != nil
+//@   modifies *
+//@ func (SeekOptimizableBoolNode).EvalBoolWithSeek
+//@   requires s != nil && cursor != nil
+//@   pure
+//@ func (TypeSeekableSetCursor).SeekToString
+//@   modifies curPos[self]
+
+// The symbol validator is driven by Accept in traversal order: a sub-query's symbol is visited between its
+// Start and End callbacks, so the saved symbol tables are there when End pops them.
+//@ func (*SymbolValidator).VisitSetFunctionNodeEnd
+//@   props C10
+//@   assume visitor.symbolTypes != nil && node != nil
+//@   modifies *
+//@ func (*SymbolValidator).VisitUntypedSymbolNode
+//@   props C10
+//@   assume visitor.symbolTypes != nil && node != nil
+//@   modifies *
+//@ func (*SymbolValidator).VisitUntypedSubQueryNodeStart
+//@   props C10
+//@   assume visitor.symbolTypes != nil && node != nil
+//@   modifies *
+//@ func (*SymbolValidator).VisitUntypedSubQueryNodeEnd
+//@   props C10
+//@   assume visitor.Err == nil ==> len(visitor.typeStack) > 0
+//@   modifies *
